@@ -26,7 +26,18 @@ def main(argv=None):
     import_rxsci()
     from . import engine
     check = importlib.import_module('mc.checks.%s' % args.check.lower())
-    return engine.run_check(check, tier, seed, workers=args.workers, budget=args.budget)
+    import io
+    buf = io.StringIO()
+    rc = engine.run_check(check, tier, seed, workers=args.workers, budget=args.budget, out=buf)
+    try:
+        sys.stdout.write(buf.getvalue())
+        sys.stdout.flush()
+    except BrokenPipeError:      # the reader went away (e.g. `| head`): the verdict is still the exit status
+        try:
+            sys.stdout = open(os.devnull, 'w')
+        except Exception:
+            pass
+    return rc
 
 
 if __name__ == '__main__':
